@@ -76,6 +76,15 @@ func init() {
 	add("c05-rootbase-result-len", "C05.rootbase", ddec,
 		"\tdv.Range.Start = d.Pos()\n\n\td.AddChild(dv)\n\n\treturn dv, v, err\n}\n\nfunc (d *D) FieldFormatBitBuf", "\tdv.Range = ranges.Range{Start: d.Pos(), Len: d.BitsLeft()}\n\n\td.AddChild(dv)\n\n\treturn dv, v, err\n}\n\nfunc (d *D) FieldFormatBitBuf", "decode-result:(*pkg/decode.D).TryFieldFormatBitBuf")
 
+	add("c05-rootbase-fieldvalue-noreader", "C05.rootbase", ddec,
+		"\tv.Name = name\n\tv.RootReader = d.bitBuf\n\tv.Range = ranges.Range{Start: start, Len: stop - start}", "\tv.Name = name\n\tv.Range = ranges.Range{Start: start, Len: stop - start}", "linked-has-reader:(*pkg/decode.D).TryFieldValue")
+	add("c05-rootbase-rangefn-noreader", "C05.rootbase", ddec,
+		"\tv.RootReader = d.bitBuf\n\tv.Range = ranges.Range{Start: firstBit, Len: nBits}", "\tv.Range = ranges.Range{Start: firstBit, Len: nBits}", "linked-has-reader:(*pkg/decode.D).FieldRangeFn")
+	add("c05-rootbase-gap-noreader", "C05.rootbase", ddec,
+		"RootReader: d.bitBuf,\n\t\t\tRange:      gap,", "Range:      gap,", "linked-has-reader:(*pkg/decode.D).FillGaps")
+	add("c05-rootbase-fieldvalue-reader-conditional", "C05.rootbase", ddec,
+		"\tv.Name = name\n\tv.RootReader = d.bitBuf\n\tv.Range = ranges.Range{Start: start, Len: stop - start}", "\tv.Name = name\n\tif d.Value.IsRoot {\n\t\tv.RootReader = d.bitBuf\n\t}\n\tv.Range = ranges.Range{Start: start, Len: stop - start}", "linked-has-reader:(*pkg/decode.D).TryFieldValue")
+
 	// C05.span (borrowed C03.post / C03.sub / C03.minmax obligations)
 	add("c05-span-nested-not-root", "C05.span", ddec,
 		"\tc := &Compound{IsArray: false}\n\tcd := d.fieldDecoder(name, br, c)\n\tcd.Value.IsRoot = true\n", "\tc := &Compound{IsArray: false}\n\tcd := d.fieldDecoder(name, br, c)\n", "root-before-fn")
